@@ -594,6 +594,8 @@ cdef class cyDiscreteQuadraticModel:
         cdef bias_type[:, :] biases_view
 
         if isinstance(biases, abc.Mapping):
+            # validate every entry before anything is written: a bad entry after a good one used to leave the
+            # good one in the case-level model without the (u, v) interaction being recorded
             for (case_u, case_v), bias in biases.items():
                 if case_u < 0 or case_u >= num_cases_u:
                     raise ValueError("case {} is invalid, variable only supports {} "
@@ -603,6 +605,7 @@ cdef class cyDiscreteQuadraticModel:
                     raise ValueError("case {} is invalid, variable only supports {} "
                                      "cases".format(case_v, self.num_cases(v)))
 
+            for (case_u, case_v), bias in biases.items():
                 cu = self.case_starts_[u] + case_u
                 cv = self.case_starts_[v] + case_v
 
